@@ -39,6 +39,9 @@ func filterManifestsToKeep(manifests []releaseutil.Manifest) (keep, remaining []
 		resourcePolicyType = strings.ToLower(strings.TrimSpace(resourcePolicyType))
 		if resourcePolicyType == kube.KeepPolicy {
 			keep = append(keep, m)
+		} else {
+			// Any other policy value does not protect the resource: it is deleted like the rest.
+			remaining = append(remaining, m)
 		}
 
 	}
